@@ -31,6 +31,7 @@ RULE = ("FTP level: random command sequences (length <= 20) over a small path un
 ASSUMPTIONS = ["file-system back ends run in a fresh temp dir per case (removed afterwards)",
                "directory sizes, nlink, modes and times are not compared (they differ by construction)"]
 REQUIRED_MONITORS = ["steps_compared", "api_ops_compared"]
+ANCHOR_FUNCTIONS = ['pathio.py:MemoryPathIO.rename', 'pathio.py:PathIO.rename', 'pathio.py:AsyncPathIO.rename', 'pathio.py:MemoryPathIO._open']
 EXHAUSTIVE = {"quick": False, "thorough": False}
 
 TREE0 = {"/a": DIR, "/a/f1": payload_bytes(300, 1), "/a/sub": DIR, "/a/sub/f2": b"", "/b": DIR, "/top.txt": b"hello world",
